@@ -9,3 +9,9 @@ import TypedpyModel.Props.C04
 #print axioms Typedpy.C04.accessors_ok
 #print axioms Typedpy.C04.immutable_example
 #print axioms Typedpy.C04.nested_immutable_example
+#print axioms Typedpy.C04.immutable_stepB_state
+#print axioms Typedpy.C04.immutable_stepR_state
+#print axioms Typedpy.C04.immutable_runR_frozen
+#print axioms Typedpy.C04.immField_stepR_frozen
+#print axioms Typedpy.C04.immField_runR_frozen
+#print axioms Typedpy.C04.tables_all_guarded
